@@ -176,3 +176,32 @@ DESCRIPTION = {
                     "(must-not-compile facts are rustc's verdict)"],
 }
 ASSUMPTIONS = ["a Formatter is (options, sink): equal probe traces and equal sink bytes mean equal output"]
+
+
+# ------------------------------------------------------------------------------------------------------------------
+# decision half: engine L (llsym) on `FmtAttribute::placeholders_by_arg` / `contains_arg` - the functions that decide whether an enum-level
+# format "mentions `_variant`" (then it wraps every variant) and whether a placeholder referring to it carries a format specifier or a
+# non-Display trait (then the derive rejects the attribute).  See vf/props/tcall.py and DESIGN.md 10.10.
+
+BY_ARG_FAIL = {5: "`contains_arg` says the attribute does not mention the argument although a placeholder resolves to it (or the reverse)",
+               6: "a different number of placeholders is taken to refer to the argument than format_args! resolves to it",
+               7: "a placeholder referring to the argument is reported with different modifiers / trait (decides the rejection of `{_variant:?}`)"}
+
+
+def _classify(code, lit, cfg):
+    return "other"
+
+
+def extra_pass(tier, kf):
+    from . import tcall
+    return tcall.run("C07", "probe_by_arg", tcall.BY_ARG_FORMS, tier, kf, BY_ARG_FAIL, _classify,
+                     "FmtAttribute::placeholders_by_arg, contains_arg, Placeholder::parse_fmt_string, FmtAttribute, FmtArgument",
+                     ["impl/src/fmt/mod.rs::FmtAttribute::placeholders_by_arg", "impl/src/fmt/mod.rs::FmtAttribute::contains_arg",
+                      "impl/src/fmt/mod.rs::Placeholder::parse_fmt_string"],
+                     n_full={"quick": 3, "thorough": 5}, n_deep={"quick": 5, "thorough": 7})
+
+
+def replay_json(path):
+    """./check C07 --replay <decision_*.json>"""
+    from . import tcall
+    return tcall.replay_json("C07", path)
